@@ -329,3 +329,11 @@ package basicnode
 //@   requires nb != nil && nb.kind == datamodel.Kind_Invalid
 //@   assigns nb.kind, nb.scalarNode
 //@   ensures[C01,C12] err == nil && nb.kind == 99 && nb.scalarNode == v
+
+// ---- C20: read-only API (frame sweep) ----
+// Every method of a finished node, of an iterator-free reader and of a prototype writes nothing
+// that existed before the call (iterators' Next, which advance the per-call iterator object, and
+// the assemblers have their own contracts above).
+//@ sweep[C20] assigns nothing: plainMap, plainList, plainBool, plainBytes, plainFloat, plainInt, plainUint, plainLink, plainString,
+//@   Prototype__Any, Prototype__Bool, Prototype__Bytes, Prototype__Float, Prototype__Int, Prototype__Link, Prototype__List, Prototype__Map, Prototype__String,
+//@   func NewBool, func NewBytes, func NewFloat, func NewInt, func NewUint, func NewLink, func NewString, func Chooser
